@@ -319,6 +319,8 @@ func histConfigs(prop string) []histCfg {
 			out = append(out, histCfg{Config{Dotu: dotu, Msize: 8192, Auth: auth}, 256})
 		}
 	}
+	// an implementation that takes over request processing (SrvReqProcessOps) and calls Process/PostProcess itself
+	out = append(out, histCfg{Config{Dotu: true, Msize: 8192, Auth: true, ProcOps: true}, 256})
 	if prop == "C05" {
 		// the count boundaries also at the other msize values of the statement
 		out = append(out, histCfg{Config{Dotu: true, Msize: 8192}, 64}, histCfg{Config{Dotu: false, Msize: 8192}, 8192},
@@ -346,7 +348,7 @@ func histCases(prop, tier string, seed int64) []core.Case {
 			for _, other := range others {
 				si, other := si, other
 				cases = append(cases, core.Case{
-					ID: fmt.Sprintf("trans/%s/dotu=%v/auth=%v/msize=%d/%s/other=%s", prop, hc.cfg.Dotu, hc.cfg.Auth, hc.msize, sts[si].name, other),
+					ID: fmt.Sprintf("trans/%s/dotu=%v/auth=%v/proc=%v/msize=%d/%s/other=%s", prop, hc.cfg.Dotu, hc.cfg.Auth, hc.cfg.ProcOps, hc.msize, sts[si].name, other),
 					Run: func(ctx *core.Ctx) core.Result {
 						return runTransitions(prop, hc, sts[si], other, vars)
 					},
@@ -432,7 +434,7 @@ func runTransitions(prop string, hc histCfg, st fidState, other string, vars []r
 func runRandomHist(prop string, seed int64, idx, steps int) core.Result {
 	var res core.Result
 	r := core.NewRand(seed, fmt.Sprintf("hist/%s/%d", prop, idx))
-	cfg := Config{Dotu: r.Bool(), Msize: 8192, Auth: r.Intn(3) == 0}
+	cfg := Config{Dotu: r.Bool(), Msize: 8192, Auth: r.Intn(3) == 0, ProcOps: r.Intn(4) == 0}
 	nconn := 1 + r.Intn(3)
 	h := NewHist(cfg, nconn, &res, prop)
 	if !h.Negotiate([]uint32{128, 256, 4096}[r.Intn(3)]) {
